@@ -202,3 +202,25 @@ class PlainTorchDataset(torch.utils.data.Dataset):
         if not 0 <= idx < self.size:
             raise IndexError(idx)
         return ((torch.arange(3 * 16 * 16).float().view(3, 16, 16) * (idx + 2)) % 23) / 23, (idx * 7 + 1) % self.n_classes
+
+
+from kappadata.transforms.base.kd_transform import KDTransform as _KDTransform
+
+
+class OffsetKDTransform(_KDTransform):
+    """a deterministic KDTransform (is_deterministic is True by default) with a tunable parameter, used as post-cache
+    transform: wraps the sample together with its current offset, so a stale (cached) application is visible.
+    `on_call` is a module-level hook the harness uses to log calls and to yield to the scheduler."""
+    on_call = [None]
+
+    def __init__(self, offset=0):
+        super().__init__()
+        self.offset = offset
+
+    def _scale_strength(self, factor):
+        self.offset = round(factor * 100)
+
+    def __call__(self, x, ctx=None):
+        if OffsetKDTransform.on_call[0] is not None:
+            OffsetKDTransform.on_call[0]()
+        return ("KD", self.offset, x)
